@@ -139,10 +139,14 @@ def asm_block_rules(run):
               "resolve_once no longer appends each encoding, whole, after the bits collected so far")
     # an unresolved instruction makes the pass unstable, and fails when guessing is not allowed
     cg = _calls(g, "ResolverContext::can_guess")
-    oku = len(cg) == 1
-    if oku:
-        cb, ct = cg[0]
-        oku = ictx is not None and g.copy_root(_base_local(g, ct["args"][0])) == ictx
+    # (a can_guess() handed straight to eval_address belongs to the label-alignment rule, not to this one)
+    ea_flags = set()
+    for _b, _t in _calls(g, "ResolverContext::eval_address"):
+        for a_, ty_ in zip(_t["args"], _t.get("arg_tys") or []):
+            if ty_ == "bool" and op_local(a_) is not None:
+                ea_flags.add(g.copy_root(op_local(a_)))
+    cg_instr = [(cb, ct) for cb, ct in cg if g.copy_root(ct["dest"]["l"]) not in ea_flags]
+    oku = len(cg_instr) == 1 and all(ictx is not None and g.copy_root(_base_local(g, ct["args"][0])) == ictx for cb, ct in cg)
     run.check(oku, R, R + "|unresolved-inner", g.loc(), "an instruction of the block that cannot be resolved fails the block once guessing is not allowed", "resolve_once no longer fails on an unresolvable inner instruction in a strict pass")
 
 
